@@ -807,6 +807,14 @@ func (e *Engine) parseGhostType(s string, pkg string) (types.Type, error) {
 		if tv, err := types.Eval(e.fset, sp.Pkg, token.NoPos, s); err == nil && tv.IsType() {
 			return tv.Type, nil
 		}
+		// package-qualified types (time.Time, os.FileMode, ...): evaluate in the scope of a file that imports the package
+		if pp := e.ppkgs[sp.Pkg.Path()]; pp != nil {
+			for _, f := range pp.Syntax {
+				if tv, err := types.Eval(e.fset, sp.Pkg, f.Name.End(), s); err == nil && tv.IsType() {
+					return tv.Type, nil
+				}
+			}
+		}
 	}
 	return nil, fmt.Errorf("unsupported ghost type %q", s)
 }
